@@ -15,6 +15,7 @@ See DESIGN.md section 2.1 / 2.6.
 """
 import math
 import os
+import zlib
 import sys
 import time
 import traceback
@@ -633,6 +634,16 @@ class SymPath(_PathBase):
         self.solver.add(c)
         self.pc_size += 1
 
+    def _replayed(self, kind, tag):
+        """next decision of the prefix; it must be of the same kind and made on the same condition (structural
+        hash) as when it was first taken - otherwise the re-execution diverged (e.g. hash-order dependent code)"""
+        d = self.prefix[len(self.decisions)]
+        if not (isinstance(d, tuple) and len(d) == 3 and d[0] == kind):
+            raise HarnessError("re-execution diverged: expected a %r decision, prefix has %r" % (kind, d))
+        if d[2] != tag:
+            raise HarnessError("re-execution diverged: %r decision taken on a different condition" % kind)
+        return d[1]
+
     # -- decisions -------------------------------------------------------------
     def branch(self, cond):
         cond = z3.simplify(cond)
@@ -641,10 +652,9 @@ class SymPath(_PathBase):
         if z3.is_false(cond):
             return False
         i = len(self.decisions)
+        tag = cond.hash()
         if i < len(self.prefix):
-            d = self.prefix[i]
-            if not isinstance(d, bool):
-                raise HarnessError("non-deterministic harness: expected branch, prefix has %r" % (d,))
+            d = self._replayed("b", tag)
         else:
             # invariant: the path condition is satisfiable, so at least one side is
             hint = self._model_says(cond)
@@ -663,13 +673,13 @@ class SymPath(_PathBase):
                     f, mf = True, None
             if t and f:
                 d = True
-                self.pending.append(self.decisions + [False])
+                self.pending.append(self.decisions + [("b", False, tag)])
             elif t or f:
                 d = bool(t)
             else:
                 raise Abort("path condition unsatisfiable")
             self.last_model = mt if d else mf
-        self.decisions.append(d)
+        self.decisions.append(("b", d, tag))
         self.stats["decisions"] += 1
         self._add(cond if d else z3.Not(cond))
         if i < len(self.prefix):
@@ -682,15 +692,16 @@ class SymPath(_PathBase):
             raise HarnessError("empty choice %s" % name)
         name = self._uniq(name)
         i = len(self.decisions)
+        tag = zlib.crc32(("%s/%d" % (name, n)).encode())
         if i < len(self.prefix):
-            v = self.prefix[i]
-            if isinstance(v, bool) or not isinstance(v, int) or not (0 <= v < n):
-                raise HarnessError("non-deterministic harness at choice %s: prefix %r" % (name, v))
+            v = self._replayed("c", tag)
+            if not (0 <= v < n):
+                raise HarnessError("re-execution diverged at choice %s: prefix value %r" % (name, v))
         else:
             v = 0
             for k in range(n - 1, 0, -1):
-                self.pending.append(self.decisions + [k])
-        self.decisions.append(v)
+                self.pending.append(self.decisions + [("c", k, tag)])
+        self.decisions.append(("c", v, tag))
         self.stats["decisions"] += 1
         self.inputs[name] = v
         self.trace.append((name, labels[v] if labels else v))
@@ -713,7 +724,7 @@ class SymPath(_PathBase):
                 d = self.prefix[i]
                 # prefix entries for int concretisation are ('i', value, taken)
                 if not (isinstance(d, tuple) and d[0] == "i"):
-                    raise HarnessError("non-deterministic harness at int split")
+                    raise HarnessError("re-execution diverged at int split: prefix has %r" % (d,))
                 _, v, taken = d
             else:
                 ok, m = self._check(None)
@@ -892,10 +903,9 @@ class SymPath(_PathBase):
         if z3.is_false(feas):
             return False
         i = len(self.decisions)
+        tag = feas.hash()
         if i < len(self.prefix):
-            d = self.prefix[i]
-            if not isinstance(d, bool):
-                raise HarnessError("non-deterministic harness at exists_fork")
+            d = self._replayed("e", tag)
             if d:
                 self._add(feas)
             else:
@@ -921,7 +931,7 @@ class SymPath(_PathBase):
                 f = True
             if t and f:
                 d = True
-                self.pending.append(self.decisions + [False])
+                self.pending.append(self.decisions + [("e", False, tag)])
             elif t:
                 d = True
             elif f:
@@ -937,7 +947,7 @@ class SymPath(_PathBase):
                     neg = self.forall_not(xs, feas)
                 self._add(neg)
                 self.last_model = None
-        self.decisions.append(d)
+        self.decisions.append(("e", d, tag))
         self.stats["decisions"] += 1
         self.trace.append((self._uniq(name), "sat" if d else "unsat"))
         return d
@@ -1156,6 +1166,7 @@ class Result(object):
         self.obl = {}
         self.failures = []
         self.fail_count = {}
+        self.buckets = {}
         self.inconclusive = []
         self.errors = []
         self.samples = []
@@ -1167,7 +1178,7 @@ class Result(object):
         self.not_modelled = 0
         self.top_choices = {}
 
-    def merge_path(self, p, keep_failures=40):
+    def merge_path(self, p, keep_failures=4):
         self.paths += 1
         for k, v in p.stats.items():
             self.stats[k] = self.stats.get(k, 0) + v
@@ -1176,9 +1187,11 @@ class Result(object):
             for i in range(3):
                 o[i] += c[i]
         for f in p.failures:
-            n = self.fail_count.get(f["label"], 0)
-            self.fail_count[f["label"]] = n + 1
-            if n < keep_failures:
+            self.fail_count[f["label"]] = self.fail_count.get(f["label"], 0) + 1
+            b = bucket(f)
+            n = self.buckets.get(b, 0)
+            self.buckets[b] = n + 1
+            if n < keep_failures and len(self.failures) < 4000:
                 self.failures.append(f)
 
     def merge(self, o):
@@ -1196,11 +1209,14 @@ class Result(object):
             self.fail_count[l] = self.fail_count.get(l, 0) + n
         have = {}
         for f in self.failures:
-            have[f["label"]] = have.get(f["label"], 0) + 1
+            have[bucket(f)] = have.get(bucket(f), 0) + 1
         for f in o.failures:
-            if have.get(f["label"], 0) < 40:
+            b = bucket(f)
+            if have.get(b, 0) < 4 and len(self.failures) < 4000:
                 self.failures.append(f)
-                have[f["label"]] = have.get(f["label"], 0) + 1
+                have[b] = have.get(b, 0) + 1
+        for b, n in o.buckets.items():
+            self.buckets[b] = self.buckets.get(b, 0) + n
         self.inconclusive.extend(o.inconclusive[: max(0, 20 - len(self.inconclusive))])
         self.errors.extend(o.errors[: max(0, 20 - len(self.errors))])
         if len(self.samples) < 6:
@@ -1210,6 +1226,28 @@ class Result(object):
         self.functions |= o.functions
         for k, v in o.top_choices.items():
             self.top_choices[k] = self.top_choices.get(k, 0) + v
+
+
+_BUCKET_KEYS = ("op", "what", "exc", "edit", "analysis", "kind", "cls", "copy", "format", "entity", "reference", "template",
+                "operation", "direction", "reversible", "saved", "loaded")
+
+
+def bucket(f):
+    """failures are kept per *kind* (label + the harness' classifying detail), never per label only: a flood of one
+    kind (e.g. a known finding) must not crowd another kind out of the sample that gets replayed"""
+    det = f.get("detail") or {}
+    parts = [f["label"]]
+    for k in _BUCKET_KEYS:
+        if k in det:
+            parts.append("%s=%s" % (k, det[k]))
+    for k in ("problems", "diff"):
+        if det.get(k):
+            import re as _re
+            parts.append(_re.sub(r"[0-9]+", "#", str(det[k][0]))[:80])
+    ops = det.get("ops")
+    if ops:
+        parts.append("ops=%s" % ",".join(str(o) for o in ops[-3:]))
+    return "|".join(parts)
 
 
 def _profile_collector(store, roots):
